@@ -13,7 +13,7 @@ expanded again.
 import importlib
 import time
 
-from mc import core
+from mc import core, seams
 
 
 class Pruned(Exception):
@@ -113,6 +113,19 @@ class Explorer(object):
             self.scenario(self.params, ch)
         except Pruned:
             pass
+        except seams.ServerStall as e:
+            # a genuine stall is deterministic: replay the very same choices once before believing it
+            self.stats.stall_retries = getattr(self.stats, "stall_retries", 0) + 1
+            ch2 = Chooser(list(ch.choices), 10 ** 9, None)
+            try:
+                self.scenario(self.params, ch2)
+                ch2.bound = self.bound
+                ch = ch2
+                ch.prefix = prefix
+            except Pruned:
+                pass
+            except seams.ServerStall as e2:
+                ch.flag("server-stall", "an iteration of the server loop never returns (blocks or spins)", str(e2))
         st = self.stats
         st.executions += 1
         st.points += max(0, len(ch.choices) - len(prefix))
@@ -226,4 +239,6 @@ def replay_choices(scenario, params, choices):
         scenario(params, ch)
     except Pruned:
         pass
+    except seams.ServerStall as e:
+        ch.flag("server-stall", "an iteration of the server loop never returns (blocks or spins)", str(e))
     return ch
